@@ -17,23 +17,30 @@ from . import p_parser
 from .p_parser import export, file_bytes, obs_of_dump, proj, write_cfg, cfg_text
 
 
-def opt_read_script(R, data, delim, comment, optstr):
-    return ["rm %s" % hx(R), "file %s %s" % (hx(R + "/etc/p.conf"), hx(data)),
+def opt_read_script(R, data, delim, comment, optstr, place=0):
+    """place: where the one file of the tree sits - the options apply to it wherever the layered read finds it:
+    0 the /etc main file; 1 the vendor main file while the /etc main file is a symbolic link to nowhere (found, cannot be opened,
+    the scan goes on below it); 2 the /run main file; 3 the only drop-in of a tree without main file."""
+    files = {0: ["file %s %s" % (hx(R + "/etc/p.conf"), hx(data))],
+             1: ["file %s %s" % (hx(R + "/usr/lib/p.conf"), hx(data)), "symlink %s %s" % (hx(R + "/no/such/target"), hx(R + "/etc/p.conf"))],
+             2: ["file %s %s" % (hx(R + "/run/p.conf"), hx(data))],
+             3: ["file %s %s" % (hx(R + "/run/p.conf.d/only.conf"), hx(data))]}[place]
+    return ["rm %s" % hx(R)] + files + [
             "newopt 1 %s" % hx((optstr + ";" if optstr else "") + "ROOT_PREFIX=" + R),
-            "readconfig 1 - - %s %s %s %s" % (hx("p"), hx("conf"), hx(bytes(delim)), hx(bytes(comment))),
+            "readconfig 1 - %s %s %s %s %s" % (hx("/usr/lib"), hx("p"), hx("conf"), hx(bytes(delim)), hx(bytes(comment))),
             "dumpx 1", "errloc", "free 1"]
 
 
 def replay_opt_files(exe, recs, optstr, fields, verdict, tag, pid="C15"):
     cases = []
     for i, r in enumerate(recs):
-        cases.append((i, opt_read_script(ROOT + "/o%d" % (i % 16), file_bytes(r["lines"]), r["delim"], r["comment"], optstr)))
+        cases.append((i, opt_read_script(ROOT + "/o%d" % (i % 16), file_bytes(r["lines"]), r["delim"], r["comment"], optstr, place=(i // 3) % 4)))
     res = core.run_cases(exe, cases)
     ok = 0
     for i, r in enumerate(recs):
         out = res.get(i)
         text = file_bytes(r["lines"]).decode("latin-1")
-        case = {"kind": "optfile", "opt": optstr, "delim": r["delim"], "comment": r["comment"], "lines": r["lines"], "text": text}
+        case = {"kind": "optfile", "opt": optstr, "delim": r["delim"], "comment": r["comment"], "lines": r["lines"], "text": text, "place": (i // 3) % 4}
         fp = "%s:%s:%s" % (pid, tag, "-".join(r["kinds"]))
         if out is None or out["crash"]:
             verdict.violation(fp + ":crash", dict(case, crash=(out or {}).get("crash")), "read with %r crashed on:\n%s\n%s" % (optstr, text, (out or {}).get("crash", "")[:600]))
@@ -214,7 +221,7 @@ def check_c15(exe, tier, seed, verdict):
     acc = p_parser.validate_prefix_traces(exe, files, verdict, "C15", tag="o")
     cov = {"states": states, "transitions": states, "traces_validated_against_impl": ok + okopt + acc,
            "evaluations": ncases + nopt + sum(len(f["lines"]) for f in files), "distinct_nontrivial": nn + nnopt,
-           "rule": "JOIN grammar: all files of <= %d lines over the join pool (keys a/b defined repeatedly, empty definitions, continuation lines, re-opened sections; and all files of <= %d lines over {[S], [T], a=v, a=w, a=}: a key defined again after its section was left and re-opened) read WITH JOIN_SAME_ENTRIES=1 (value list = lines of all definitions since the last empty one) and WITHOUT it (first definition); PYTHON_STYLE: all files of <= %d lines over the python pool (indented lines containing delimiters, comment characters inside values); option strings: every sequence of <= %d items from JOIN_SAME_ENTRIES=0|1, PYTHON_STYLE=0|1, PARSING_DIRS (3 lists), CONFIG_DIRS (2 lists), ROOT_PREFIX (2 roots) and 3 unknown/misspelt names (%d strings, %d replayed) each followed by a probe read whose marker keys reveal the directories, postfixes and root consulted and the two parsing flags; %d random files of both grammars as prefix traces. non-trivial = key with >= 2 definitions / indented line containing a delimiter / option string with >= 2 items or an unknown item not in first position." % (
+           "rule": "(the one file of each replayed case sits, in rotation, as the /etc main file, as the vendor main file below an /etc main file that is a symbolic link to nowhere, as the /run main file, as the only drop-in of a tree without main file: the options apply wherever the layered read finds it) JOIN grammar: all files of <= %d lines over the join pool (keys a/b defined repeatedly, empty definitions, continuation lines, re-opened sections; and all files of <= %d lines over {[S], [T], a=v, a=w, a=}: a key defined again after its section was left and re-opened) read WITH JOIN_SAME_ENTRIES=1 (value list = lines of all definitions since the last empty one) and WITHOUT it (first definition); PYTHON_STYLE: all files of <= %d lines over the python pool (indented lines containing delimiters, comment characters inside values); option strings: every sequence of <= %d items from JOIN_SAME_ENTRIES=0|1, PYTHON_STYLE=0|1, PARSING_DIRS (3 lists), CONFIG_DIRS (2 lists), ROOT_PREFIX (2 roots) and 3 unknown/misspelt names (%d strings, %d replayed) each followed by a probe read whose marker keys reveal the directories, postfixes and root consulted and the two parsing flags; %d random files of both grammars as prefix traces. non-trivial = key with >= 2 definitions / indented line containing a delimiter / option string with >= 2 items or an unknown item not in first position." % (
                maxl + 1, 6 if tier == "quick" else 7, maxl, 3 if tier == "quick" else 4, totopt, nopt, len(files)),
            "samples": samples[:3], "exhaustive": tier == "thorough",
            "trusted_base": ["TLC 1.8.0", "gcc ASan/UBSan", "drv.c"]}
